@@ -239,67 +239,86 @@ theorem ReachN.bound {s0 s : Sys} {n : Nat} (h : ReachN s0 n s) : n + s.measure 
 
 /-! ### join first -/
 
-structure InvJ (cap : Nat) (O E : List Nat) (c : Nat) (s : SysJ) : Prop where
+structure InvJ (cap : Nat) (inp out err : Bool) (I O E : List Nat) (c : Nat) (s : SysJ) : Prop where
   cap_eq : s.cap = cap
+  inB : s.gotIn ++ s.inQ = I
   outB : s.outQ ++ s.toOut = O
   errB : s.errQ ++ s.toErr = E
   code_eq : s.exitCode = c
-  prog_cases : (s.prog = joinProgram ∧ s.outRd = true ∧ s.errRd = true ∧ s.reaped = none) ∨
+  prog_cases :
+    (s.prog = joinProgram ∧ s.inWr = inp ∧ s.outRd = out ∧ s.errRd = err ∧ s.reaped = none) ∨
+    (s.prog = [.wait, .closeOut, .closeErr] ∧ s.inWr = false ∧ s.outRd = out ∧ s.errRd = err ∧ s.reaped = none) ∨
     (s.cPhase = .exited ∧ s.reaped = some c ∧
-      (s.prog = [.closeOut, .closeErr, .closeIn] ∨ s.prog = [.closeErr, .closeIn] ∨ s.prog = [.closeIn] ∨ s.prog = []))
+      (s.prog = [.closeOut, .closeErr] ∨ s.prog = [.closeErr] ∨ s.prog = []))
   not_sig : s.cPhase ≠ .signalled
-  past_out : s.cPhase ≠ .writingOut → s.toOut = []
+  past_out : s.cPhase ≠ .reading → s.cPhase ≠ .writingOut → s.toOut = []
+  past_in : s.cPhase ≠ .reading → s.inQ = []
   exited_done : s.cPhase = .exited → s.toErr = []
+  out_ok : s.toOut ≠ [] → out = true
+  err_ok : s.toErr ≠ [] → err = true
 
-theorem InvJ.init (cap : Nat) (O E : List Nat) (c : Nat) : InvJ cap O E c (SysJ.init cap joinProgram O E c) := by
-  constructor <;> simp [SysJ.init]
+theorem InvJ.init (cap : Nat) (inp out err reads : Bool) (I O E : List Nat) (c : Nat) (hI : reads = false → I = [])
+    (hout : out = false → O = []) (herr : err = false → E = []) :
+    InvJ cap inp out err I O E c (SysJ.init cap joinProgram inp out err reads I O E c) := by
+  cases reads <;> cases out <;> cases err <;> constructor <;> simp_all [SysJ.init]
 
-theorem InvJ.step {cap : Nat} {O E : List Nat} {c : Nat} {s s' : SysJ} (h : InvJ cap O E c s) (hs : StepJ s s') :
-    InvJ cap O E c s' := by
-  obtain ⟨h1, h2, h3, h4, h5, h6, h7, h8⟩ := h
+theorem InvJ.step {cap : Nat} {inp out err : Bool} {I O E : List Nat} {c : Nat} {s s' : SysJ}
+    (h : InvJ cap inp out err I O E c s) (hs : StepJ s s') : InvJ cap inp out err I O E c s' := by
+  obtain ⟨h1, h2, h3, h4, h5, h6, h7, h8, h9, h10, h11, h12⟩ := h
   cases hs <;> constructor <;> simp_all [joinProgram] <;> grind
 
-theorem InvJ.reach {cap : Nat} {O E : List Nat} {c : Nat} {s : SysJ}
-    (h : ReachJ (SysJ.init cap joinProgram O E c) s) : InvJ cap O E c s := by
+theorem InvJ.reach {cap : Nat} {inp out err reads : Bool} {I O E : List Nat} {c : Nat} {s : SysJ}
+    (hI : reads = false → I = []) (hout : out = false → O = []) (herr : err = false → E = [])
+    (h : ReachJ (SysJ.init cap joinProgram inp out err reads I O E c) s) : InvJ cap inp out err I O E c s := by
   induction h with
-  | init => exact InvJ.init cap O E c
+  | init => exact InvJ.init cap inp out err reads I O E c hI hout herr
   | step _ hs ih => exact ih.step hs
 
-theorem progressJ {cap : Nat} {O E : List Nat} {c : Nat} {s : SysJ} (h : InvJ cap O E c s)
+theorem progressJ {cap : Nat} {inp out err : Bool} {I O E : List Nat} {c : Nat} {s : SysJ}
+    (h : InvJ cap inp out err I O E c s)
     (hO : O.length ≤ cap) (hE : E.length ≤ cap) (hp : s.prog ≠ []) : ∃ s', StepJ s s' := by
-  obtain ⟨h1, h2, h3, h4, h5, h6, h7, h8⟩ := h
-  rcases h5 with ⟨hprog, hor, her, _⟩ | ⟨_, _, hprog⟩
+  obtain ⟨h1, h2, h3, h4, h5, h6, h7, h8, h9, h10, h11, h12⟩ := h
+  rcases h6 with ⟨hprog, _⟩ | ⟨hprog, hiw, hor, her, _⟩ | ⟨_, _, hprog⟩
+  · exact ⟨_, StepJ.pCloseIn s _ hprog⟩
   · cases hc : s.cPhase with
-    | signalled => exact absurd hc h6
+    | signalled => exact absurd hc h7
     | exited => exact ⟨_, StepJ.pWaitExited s _ hprog hc⟩
+    | reading =>
+      by_cases hq : s.inQ = []
+      · exact ⟨_, StepJ.cEofIn s hc hq hiw⟩
+      · exact ⟨_, StepJ.cRead s 1 hc (by omega) (by cases hh : s.inQ <;> simp_all)⟩
     | writingOut =>
       by_cases hto : s.toOut = []
       · exact ⟨_, StepJ.cDoneOut s hc hto⟩
-      · have hl : s.outQ.length + s.toOut.length = O.length := by rw [← h2]; simp
+      · have hl : s.outQ.length + s.toOut.length = O.length := by rw [← h3]; simp
         have hpos : 0 < s.toOut.length := by cases hh : s.toOut <;> simp_all
-        exact ⟨_, StepJ.cWriteOut s 1 hc hor (by omega) (by omega) (by omega)⟩
+        have hrd : s.outRd = true := by rw [hor]; exact h11 hto
+        exact ⟨_, StepJ.cWriteOut s 1 hc hrd (by omega) (by omega) (by omega)⟩
     | writingErr =>
       by_cases hte : s.toErr = []
       · exact ⟨_, StepJ.cExit s hc hte⟩
-      · have hl : s.errQ.length + s.toErr.length = E.length := by rw [← h3]; simp
+      · have hl : s.errQ.length + s.toErr.length = E.length := by rw [← h4]; simp
         have hpos : 0 < s.toErr.length := by cases hh : s.toErr <;> simp_all
-        exact ⟨_, StepJ.cWriteErr s 1 hc her (by omega) (by omega) (by omega)⟩
-  · rcases hprog with e | e | e | e
+        have hrd : s.errRd = true := by rw [her]; exact h12 hte
+        exact ⟨_, StepJ.cWriteErr s 1 hc hrd (by omega) (by omega) (by omega)⟩
+  · rcases hprog with e | e | e
     · exact ⟨_, StepJ.pCloseOut s _ e⟩
     · exact ⟨_, StepJ.pCloseErr s _ e⟩
-    · exact ⟨_, StepJ.pCloseIn s _ e⟩
     · exact absurd e hp
 
 theorem stepJ_decreases {s s' : SysJ} (hs : StepJ s s') : s'.measure < s.measure := by
   cases hs <;> simp_all [SysJ.measure, jRank, List.length_drop] <;> omega
 
-theorem joinedJ {cap : Nat} {O E : List Nat} {c : Nat} {s : SysJ} (h : InvJ cap O E c s) (hp : s.prog = []) :
-    s.reaped = some c ∧ s.cPhase = .exited ∧ s.outQ = O ∧ s.errQ = E := by
-  obtain ⟨h1, h2, h3, h4, h5, h6, h7, h8⟩ := h
-  rcases h5 with ⟨hprog, _⟩ | ⟨hex, hr, _⟩
+theorem joinedJ {cap : Nat} {inp out err : Bool} {I O E : List Nat} {c : Nat} {s : SysJ}
+    (h : InvJ cap inp out err I O E c s) (hp : s.prog = []) :
+    s.reaped = some c ∧ s.cPhase = .exited ∧ s.gotIn = I ∧ s.outQ = O ∧ s.errQ = E := by
+  obtain ⟨h1, h2, h3, h4, h5, h6, h7, h8, h9, h10, h11, h12⟩ := h
+  rcases h6 with ⟨hprog, _⟩ | ⟨hprog, _⟩ | ⟨hex, hr, _⟩
   · simp [hp, joinProgram] at hprog
-  · have hto := h7 (by rw [hex]; decide)
-    have hte := h8 hex
+  · simp [hp] at hprog
+  · have hto := h8 (by rw [hex]; decide) (by rw [hex]; decide)
+    have hiq := h9 (by rw [hex]; decide)
+    have hte := h10 hex
     simp_all
 
 end Nstd.Args.Kernel
